@@ -58,6 +58,11 @@ pub struct HistCase {
     pub prog: TimerProg,
     pub rounds: u8,
     pub ops: Vec<HOp>,
+    /// injected fault: the timer closure panics once at this reading (the caller catches the
+    /// unwind and goes on using the generator); the interrupted call handed out nothing, so
+    /// whatever comes next must not be a value handed out before
+    #[serde(default)]
+    pub fault_at: Option<usize>,
 }
 
 fn apply(g: &mut dyn Gen, op: &POp) -> Vec<u8> {
@@ -202,7 +207,12 @@ pub fn check_rel(c: &RelCase) -> CheckResult {
 /// zero times, every collection reads it at least `rounds` times.
 pub fn check_hist(c: &HistCase) -> CheckResult {
     let script = c.prog.script();
-    let mut inst: Vec<(Box<dyn Gen>, bool)> = vec![(adapter::jitter_gen(script, Some(c.rounds), BUDGET), false)];
+    let first = match c.fault_at {
+        Some(at) => adapter::jitter_gen_faulty(script, Some(c.rounds), BUDGET, at),
+        None => adapter::jitter_gen(script, Some(c.rounds), BUDGET),
+    };
+    let mut inst: Vec<(Box<dyn Gen>, bool)> = vec![(first, false)];
+    let mut faulted = false;
     let mut cur = 0usize;
     let r = c.rounds as usize;
     let mut interesting = false;
@@ -294,7 +304,7 @@ pub fn check_hist(c: &HistCase) -> CheckResult {
                     }
                     _ => unreachable!(),
                 };
-                match op {
+                let unwound = std::panic::catch_unwind(std::panic::AssertUnwindSafe(|| match op {
                     HOp::U32 => {
                         g.next_u32();
                     }
@@ -305,6 +315,22 @@ pub fn check_hist(c: &HistCase) -> CheckResult {
                         crate::ops::fill_unaligned(&mut **g, *n);
                     }
                     _ => {}
+                }));
+                if let Err(payload) = unwound {
+                    let rec = crate::engine::take_last_panic();
+                    if payload.downcast_ref::<crate::timer::TimerFault>().is_some() {
+                        // the call was interrupted inside a collection: it returned nothing, and
+                        // (next_u64 and fill clear the flag first, next_u32 only collects when
+                        // nothing is pending) no half is pending afterwards
+                        *pending = false;
+                        faulted = true;
+                        continue;
+                    }
+                    if payload.downcast_ref::<crate::timer::TimerBudget>().is_some() {
+                        return Err(Fail::inconclusive("C16:budget", "timer script is stuck"));
+                    }
+                    let rec = rec.unwrap_or_default();
+                    return Err(Fail::new(crate::engine::panic_signature(&rec), format!("op #{} {:?} panicked: {}", k, op, rec)));
                 }
                 let used = g.jitter().unwrap().reads() - before;
                 if collections == 0 && used != 0 {
@@ -317,7 +343,8 @@ pub fn check_hist(c: &HistCase) -> CheckResult {
             }
         }
     }
-    Ok(CaseInfo::new(interesting || clone_while_pending)
+    Ok(CaseInfo::new(interesting || clone_while_pending || faulted)
+        .class_if(faulted, "timer-panicked-during-a-call")
         .class_if(clone_while_pending, "clone-while-half-pending")
         .class_if(interesting, "pending-half-then-other-op")
         .class(format!("instances:{}", inst.len().min(4))))
@@ -352,7 +379,16 @@ pub fn def(ctx: &Ctx) -> PropDef {
                     2 => (0usize..6).prop_map(HOp::CloneFrom),
                     2 => (0usize..6).prop_map(HOp::Switch),
                 ];
-                (gens::timer_prog(true, 10), rounds(), proptest::collection::vec(hop, 1..=20)).prop_map(|(prog, rounds, ops)| HistCase { prog, rounds, ops }).boxed()
+                (gens::timer_prog(true, 10), rounds(), proptest::collection::vec(hop, 1..=20), proptest::option::weighted(0.25, prop_oneof![2 => 0usize..40, 1 => 0usize..400]))
+                    .prop_map(|(prog, rounds, ops, fault_at)| {
+                        // faults at the first reading of a collection are the sharpest: the pool
+                        // still holds the value handed out last (one reading for the time stamp
+                        // + three per measurement, rounds + 1 measurements without stuck ones)
+                        let per = 1 + 3 * (rounds as usize + 1);
+                        let fault_at = fault_at.map(|f| if f % 3 == 0 { (f / 3 % 8) * per } else { f });
+                        HistCase { prog, rounds, ops, fault_at }
+                    })
+                    .boxed()
             },
             check_hist,
         ));
